@@ -149,6 +149,7 @@ func (e *Engine) enterLoop(f *frame, lc *loopCtx, st *State) {
 	e.havocLoopMemory(f, lc)
 	na := X.Fresh("alloc", RefSort)
 	X.FreshBase[na.ID()] = true
+	X.SetAllocLB(na, f.st.Alloc)
 	e.assume(X.And(X.Ule(f.st.Alloc, na), X.Ule(na, X.Const(0x07ffffff, 32)))) // stated assumption: fewer than 2^27 allocations
 	f.st.Alloc = na
 	for phi := range entry {
